@@ -61,8 +61,9 @@ int main(void)
 				virt_on = 1;
 			}
 		} else if (line[0] == 'O') {
-			clockbound_err err;
-			memset(&err, 0, sizeof err);
+			/* one error struct for the whole run, as a client retrying clockbound_open()
+			 * in a loop would use it: never cleared between calls */
+			static clockbound_err err;
 			if (ctx) { clockbound_close(ctx); ctx = NULL; }
 			ctx = clockbound_open(line + 2, &err);
 			if (ctx) printf("O ok\n"); else print_err("O", &err);
